@@ -188,6 +188,8 @@ def run(ctx):
                     may_here.add("outside/hard.bin")
                 if "--check" in mode:
                     may_here = set()
+                if sum(1 for f in fails if f[0] == "hang") >= 2:
+                    continue          # two runs did not come back: reported, the remaining configurations would only wait the same way
                 before = fh.snapshot(t.root, with_dir_mtime=True)
                 cmd = ["-v", "--handler", ",".join(HANDLERS)] + mode + [t.path(a) for a in args]
                 rc, out = fh.run_cli(cmd, epoch=samples.EPOCH, timeout=60)
@@ -234,6 +236,8 @@ def run(ctx):
                     may_here.add("outside/hard.bin")
                 if "--check" in mode:
                     may_here = set()
+                if sum(1 for f in fails if f[0] == "hang") >= 2:
+                    continue
                 before = fh.snapshot(t.root, with_dir_mtime=True)
                 rc, out = fh.run_cli(["--handler", "ar,jar,javadoc,gzip,pyc,pyc-zero-mtime,zip"] + mode + [t.path(a) for a in args], epoch=samples.EPOCH, timeout=60)
                 after = fh.snapshot(t.root, with_dir_mtime=True)
